@@ -423,7 +423,16 @@ impl Compiler {
     fn compile_positive_lookaround(&mut self, inner: &Info<'_>, la: LookAround) -> Result<()> {
         let save = self.b.newsave();
         self.b.add(Insn::Save(save));
+        // A look-around is atomic: once its body has matched, later failures must not backtrack
+        // into it. A body that is delegated as a whole cannot leave backtrack branches behind,
+        // so only a hard body (compiled piecewise) needs the explicit cut.
+        if inner.hard {
+            self.b.add(Insn::BeginAtomic);
+        }
         self.compile_lookaround_inner(inner, la)?;
+        if inner.hard {
+            self.b.add(Insn::EndAtomic);
+        }
         self.b.add(Insn::Restore(save));
         Ok(())
     }
